@@ -162,6 +162,42 @@ theorem h67_target (G : MG Name) (hG : G.WF) (hr : G.Ranked) (hsmall : ∀ v ∈
       exact spec_transport hsmall hq hT hact hsurr hex hemp hp htrue (hF.exo d hd) σ
   · simp [pure, Except.pure] at he
 
+/-- the diagrams `surrogate_to_transport` builds: the target's graph, and for a source domain `d` with surrogate outcomes
+`W` and (the first declared) experiments `Z` the graph plus a selection node at every variable
+`get_nodes_to_transport(Z, W)` returns -/
+theorem surrogateToTransport_spec' {G : MG Name} (_hG : G.WF) {Y X : List Name}
+    {outcomes interventions : List (Pop × List Name)} (hv : validInput G Y X outcomes interventions = true)
+    {graphs : List (Pop × MG Name)} (hg : surrogateToTransport G outcomes interventions = .ok graphs) :
+    ∀ p ∈ graphs, p = (targetPop, G) ∨
+      ∃ Z W ns, (p.1, Z) ∈ interventions ∧ (p.1, W) ∈ outcomes ∧ getNodesToTransport G Z W = .ok ns ∧
+        p.2 = createTransportDiagram G ns := by
+  obtain ⟨_, _, _, _, _, hk, _⟩ := validInput_spec hv
+  rw [surrogateToTransport_eq] at hg
+  simp only [hk, Bool.not_true, Bool.false_eq_true, ↓reduceIte] at hg
+  obtain ⟨gs, hgs, hg⟩ := bind_ok hg
+  simp only [pure, Except.pure, Except.ok.injEq] at hg
+  subst hg
+  intro p hp
+  rcases mem_assign hp with h | h
+  · exact Or.inl h
+  · obtain ⟨⟨d, W⟩, ho, hstep⟩ := mapM_ok hgs p h
+    right
+    unfold sttStep at hstep
+    simp only at hstep
+    cases hf : interventions.find? (fun p => decide (p.1 = d)) with
+    | none => rw [hf] at hstep; cases hstep
+    | some pz =>
+      obtain ⟨d', Z⟩ := pz
+      rw [hf] at hstep
+      simp only at hstep
+      obtain ⟨ns, hns, hstep⟩ := bind_ok hstep
+      simp only [pure, Except.pure, Except.ok.injEq] at hstep
+      subst hstep
+      have hmem : (d', Z) ∈ interventions := List.mem_of_find?_eq_some hf
+      have hdd : d' = d := by simpa using List.find?_some hf
+      subst hdd
+      exact ⟨Z, W, ns, hmem, ho, hns, rfl⟩
+
 /-- **TRSO is sound** (recursion level, stated for the initial query): in every family consistent with the diagrams,
 the estimand denotes the target effect -/
 theorem trso_sound_core (G : MG Name) (hG : G.WF) (hA : G.Acyclic) (hsmall : ∀ v ∈ G.nodes, v < 100)
